@@ -332,7 +332,16 @@ static void *trampoline(void *p) {
     int to = pick(0);
     sim_switch_count++;
     trace_hash = sim_hash(trace_hash, 78, (uint64_t) to, sim_yield_count);
+    int detached = me->detached;
     give_go(to);
+    if (detached) {
+        /* A detached thread never returns into libc's thread-exit path: that path frees memory
+         * concurrently with whoever holds the baton now, which would make later addresses (and with
+         * them Janet's pointer hashes) depend on real timing. The OS thread stays parked until the
+         * run's process exits. */
+        static volatile int never;
+        for (;;) futex(&never, FUTEX_WAIT, 0);
+    }
     return NULL;
 }
 
